@@ -395,4 +395,53 @@ theorem gen_num_fri_layers_eq_schedule (o : Options) (h : o.accepted = true) (ld
 
 example : Gen.ProofOpts.new_ok 27 8 16 2 8 127 = true ∧ Gen.ProofOpts.new_ok 27 8 33 2 8 127 = false := by decide
 
+/-- ★ `TransitionConstraintDegree::get_evaluation_degree` (regenerated from air/src/air/transition/degree.rs,
+    the `for` over the cycle lengths as structural recursion) is `evalDegree`, and does not panic exactly for a
+    non-empty trace, non-zero cycle lengths and a result within `usize` -/
+theorem gen_get_evaluation_degree (d : Degree) (n : Nat) :
+    Gen.Degree.get_evaluation_degree d.base d.cycles n = d.evalDegree n ∧
+    (Gen.Degree.get_evaluation_degree_ok d.base d.cycles n = true ↔
+      (1 ≤ n ∧ (∀ c ∈ d.cycles, c ≠ 0) ∧ d.evalDegree n < 18446744073709551616)) :=
+  ⟨C01G.gen_get_evaluation_degree_eq d n, C01G.gen_get_evaluation_degree_ok_iff d n⟩
+
+/-- ★ `min_blowup_factor` (regenerated) is `minBlowup` -/
+theorem gen_min_blowup_factor (d : Degree) : Gen.Degree.min_blowup_factor d.base d.cycles = d.minBlowup :=
+  (C01G.gen_min_blowup_factor_eq d).1
+
+/-- ★ `AirContext::num_constraint_composition_columns` (regenerated from air/src/air/context.rs, with the
+    degrees' `get_evaluation_degree` as a function parameter) is `compositionColumns`, for all arguments;
+    with the regenerated `get_evaluation_degree` plugged in as that parameter: -/
+theorem gen_num_constraint_composition_columns (md ad : List Degree) (n e : Nat) :
+    Gen.AirContext.num_constraint_composition_columns
+      (fun d m => Gen.Degree.get_evaluation_degree d.base d.cycles m)
+      (fun d m => Gen.Degree.get_evaluation_degree_ok d.base d.cycles m) ad md e n =
+      compositionColumns (md ++ ad) n e := by
+  have : (fun (d : Degree) m => Gen.Degree.get_evaluation_degree d.base d.cycles m) = fun d m => d.evalDegree m := by
+    funext d m; exact C01G.gen_get_evaluation_degree_eq d m
+  rw [this]; exact C01G.gen_composition_columns_eq _ md ad n e
+
+/-- ★ the exact no-panic condition of `num_constraint_composition_columns` -/
+theorem gen_num_constraint_composition_columns_ok (ok : Degree → Nat → Bool) (md ad : List Degree) (n e : Nat) :
+    Gen.AirContext.num_constraint_composition_columns_ok (fun d m => d.evalDegree m) ok ad md e n = true ↔
+      ((∀ d ∈ md ++ ad, ok d n = true) ∧ e ≤ n ∧ n - e ≤ highestDegree (md ++ ad) n ∧ n ≠ 0 ∧
+        (highestDegree (md ++ ad) n - (n - e)) / n + 1 < 18446744073709551616) :=
+  C01G.gen_composition_columns_ok_iff ok md ad n e
+
+/-- ★ on everything the constructors accept, the regenerated `AirContext` accessors return the quantities of
+    the model's `glue` (trace polynomial degree, constraint evaluation domain size, LDE domain size, number of
+    composition columns) -/
+theorem gen_glue_accessors (n : Nat) (o : Options) (e mw aw nr : Nat) (md ad : List Degree) (g : Glue)
+    (h : glue n o e mw aw nr md ad = .ok g) :
+    g.tracePolyDegree = Gen.AirContext.trace_poly_degree n ∧
+    g.ceDomain = Gen.AirContext.ce_domain_size g.ceBlowup n ∧
+    g.ldeDomain = Gen.AirContext.lde_domain_size o.blowup n ∧
+    g.columns = Gen.AirContext.num_constraint_composition_columns (fun d m => d.evalDegree m)
+      (fun _ _ => true) ad md e n :=
+  C01G.gen_glue n o e mw aw nr md ad g h
+
+example : Gen.AirContext.num_constraint_composition_columns
+    (fun (d : Degree) m => Gen.Degree.get_evaluation_degree d.base d.cycles m)
+    (fun d m => Gen.Degree.get_evaluation_degree_ok d.base d.cycles m) [] [⟨2, []⟩, ⟨3, [4]⟩] 1 8 = 3 := by
+  decide +kernel
+
 end WinterProofs.C01
